@@ -141,6 +141,28 @@ def make_cells(gi, tier):
 
     cells.append(Cell("%s/plus_minus" % nm, st.fixed_dictionaries({"X": elem_s, "x": algs_s}), check_plusminus,
                       lambda c: nontrivial(c["x"]), None, quick=40, thorough=600, build=lambda: gi.fn("grp_sugar").build()))
+
+    # ---- exp and hat called directly on numeric (DM) parameters, incl. components of 1e-9..1e-6 and exact zeros
+    @st.composite
+    def num_case(draw):
+        return {"x": draw(algs_s), "tiny": draw(st.sampled_from([None, 1e-9, 3e-7, 8e-7, 1e-6, -5e-7])), "at": draw(st.integers(0, gi.na - 1)),
+                "zero_at": draw(st.one_of(st.none(), st.integers(0, gi.na - 1)))}
+
+    def check_numeric(case):
+        x = enc(case["x"]).astype(float)
+        if case["zero_at"] is not None:
+            x[case["zero_at"]] = 0.0
+        if case["tiny"] is not None:
+            x[case["at"]] = case["tiny"]
+        Ms, Mn = gi.fn("algM")(x), gi.numeric("algM", x)
+        L.close(Mn, Ms, "%s: algebra to_Matrix called on numeric parameters vs the symbolic function" % nm, atol=0, rtol=1e-15,
+                scale=float(np.max(np.abs(Ms))), x=x.tolist())
+        Xs, Xn = gi.exp(x), cy.vec(gi.numeric("exp", x))
+        L.close(gi.toM(Xn), gi.toM(Xs), "%s: exp called on numeric parameters vs the symbolic function (matrix form)" % nm, atol=1e-12, rtol=1e-12,
+                scale=float(np.max(np.abs(gi.toM(Xs)))), x=x.tolist())
+
+    cells.append(Cell("%s/numeric_mode" % nm, num_case(), check_numeric, lambda c: nontrivial(c["x"]),
+                      lambda c: ["tiny" if c["tiny"] is not None else "no-tiny"], quick=40, thorough=500))
     return cells
 
 
